@@ -338,6 +338,7 @@ CORPUS_EXTRA = [
     'def e{return "A" weighted 1,"B" weighted 1}',
     'def e{salt:"s" splitters:a,b if a>=1 and not b in(1,2)or a<=-3{return 1 weighted 1}else if a!=2{return 2.5 weighted 0.5}else{return "x" weighted 2}}',
     'def e{splitters:u if x not in("p","q"){if y=="z"{return "A" weighted 1}}else{return "B" weighted 1}}',
+    'def e {\n splitters: u\n if x not\n in (1, 2) {\n return "A" weighted 1\n } else\n if x == 1 {\n return "B" weighted 1\n } else\n\n {\n return "C" weighted 1\n }\n}',
 ]
 
 
@@ -362,7 +363,8 @@ def trivia_diff(req):
     import pyab_experiment.language.lexer as lx
     from pyab_experiment.utils.wraper_functions import parse_source
     rnd = random.Random(req.get("seed", 0))
-    pool = req.get("pool", [" ", "\n", "\t \n", "/* x */", "/* a */ /* b */", "// c\n", "/* ' \" // * if def */", "/*\n*\n*/", "/**/", "/* * / */", "//\n", "/* a */\t/* b */ // c\n"])
+    pool = req.get("pool", [" ", "\n", "\t \n", "/* x */", "/* a */ /* b */", "// c\n", "/* ' \" // * if def */", "/*\n*\n*/", "/**/", "/* * / */", "//\n", "/* a */\t/* b */ // c\n",
+                            "// a\x0c, \"Z\" weighted 9\n", "// a\u2028 b \u2029 c \x85 d \x1c e\n", "/* a\x0c b \u2028 */", "\r\n", "\x0b", "// \r x\n"])
     fails, evals, limit = [], 0, req.get("limit", 3)
     sink = io.StringIO()
 
